@@ -95,7 +95,8 @@ class CleanProof:
     """all clauses of the statement for one cleanup pass over one storage class"""
     inputs = dict(usage=USAGE, cand=CAND, is_network=TBool(), content_limit=TInt(0), network_limit=TInt(0),
                   cache=TOpt(USAGE))
-    note = "limits 0..3 MB x usage around the limits x up to 3 candidates of sizes around 1 MB multiples"
+    note = ("limits 0..3 MB x usage around the limits x up to 5 candidates of sizes around 1 MB multiples, incl. 0.5, 1.5 and 1.7 MB "
+            "(where flooring and rounding to nearest differ)")
 
     run = harness
 
@@ -146,8 +147,11 @@ class CleanProof:
                 for nl in (0, 2):
                     for used in (0, MB - 1, MB, 2 * MB, 3 * MB, 5 * MB + 7):
                         for priv in (0, MB):
-                            for n in range(4):
-                                cand = [(f"h{i}", sizes[(i + n) % 4], i) for i in range(n)]
+                            for n in range(7):
+                                cand = [(f"h{i}", sizes[(i + n) % 4], i) for i in range(n)] if n < 4 else \
+                                    [[(f"h{i}", 17 * MB // 10, i) for i in range(5)],                    # 1.7 MB each: floor 1, nearest 2
+                                     [(f"h{i}", MB // 2, i) for i in range(3)] + [("big", 5 * MB, 3)],  # half megabytes free nothing whole
+                                     [("a", MB - 1, 0), ("b", MB, 1), ("c", 3 * MB // 2, 2), ("d", MB, 3)]][n - 4]
                                 for cache in (None, dict(network_storage=0, content_storage=0, private_storage=0, total=0),
                                               dict(network_storage=9 * MB, content_storage=9 * MB, private_storage=0,
                                                    total=18 * MB)):
